@@ -54,6 +54,8 @@ type caseData struct {
 	u       *modgen.Universe
 	ws      *wsgen.Workspace
 	sim     *sched.Sim
+	// preDest prepares the destination of the next execution before the write path runs
+	preDest func(d *dest)
 	srcDir  string // cli: the workspace on disk
 }
 
@@ -482,6 +484,9 @@ func (r *runner) exec(c *caseData, fifo bool, inject map[string]sched.Decision) 
 // execCancel is exec with the context cancelled when the given destination position is reached.
 func (r *runner) execCancel(c *caseData, fifo bool, inject map[string]sched.Decision, cancelAt string) (error, map[string]string, *positionPolicy) {
 	d := r.newDest(c)
+	if c.preDest != nil {
+		c.preDest(d)
+	}
 	pol := &positionPolicy{inject: inject, cancelAt: cancelAt}
 	r.s.Policy = pol
 	r.s.FIFO = fifo
@@ -762,6 +767,43 @@ func Run(tp *tape.Tape, env *engine.Env) *engine.Outcome {
 		}
 		if fired > 0 {
 			states["fault-site"] = append(states["fault-site"], site+"|"+c.dstKind)
+		}
+	}
+	// a REAL failure of the operating system, below every hook: one destination file is a link to
+	// /dev/full, so whenever the code really writes its bytes - at Write or at a flush hidden in Close -
+	// write(2) fails with ENOSPC. A non-atomic put of that file must make the operation fail.
+	// (write paths that always put atomically replace the link by a complete file: a success there is right)
+	alwaysAtomic := strings.HasPrefix(c.wp.name, "PutBuf") || c.wp.name == "PutFileSetToBucket"
+	if (c.dstKind == "os" || c.dstKind == "osmap") && !c.atomic && !alwaysAtomic && !c.wp.modules && !c.wp.cli && !c.wp.rawDst && !c.wp.stream {
+		var victims []string
+		for _, k := range simfs.SortedKeys(E) {
+			if len(E[k]) > 0 && !simfs.IsTemp(k) {
+				victims = append(victims, k)
+			}
+		}
+		if _, err := os.Stat("/dev/full"); err == nil && len(victims) > 0 {
+			victim := victims[tp.Draw("devfull", len(victims))]
+			c.preDest = func(d *dest) {
+				full := filepath.Join(d.dir, filepath.FromSlash(victim))
+				if c.dstKind == "osmap" {
+					full = filepath.Join(d.dir, "sub", "dir", filepath.FromSlash(victim))
+				}
+				if err := os.MkdirAll(filepath.Dir(full), 0o755); err != nil {
+					panic(err)
+				}
+				if err := os.Symlink("/dev/full", full); err != nil {
+					panic(err)
+				}
+			}
+			err, _, _ := r.exec(c, false, nil)
+			c.preDest = nil
+			counters["device_full_executions"]++
+			s.Fired("device-full")
+			s.Event("device full at %s err=%v", victim, err != nil)
+			if err == nil {
+				s.Violate("write-failure-reported", "C15|unreported|"+c.wp.name+"|device-full",
+					"%s (dst=%s): every write(2) to %s fails with ENOSPC (the file is a link to /dev/full) but the operation returned nil", c.wp.name, c.dstKind, victim)
+			}
 		}
 	}
 	// cancellation in the middle of the operation: success may only be reported if everything is there
